@@ -126,11 +126,29 @@ def fill (h : Heap) : Op → Op
 
 abbrev DSt := St (List Nat × Nat)
 
-def stepS (S : Schema) (q : Quirks) (st : DSt) (op : Op) : DSt := step q S lifo st (fill st.h op)
+/-- The repaired code (F-C13-1, fix in /repo): evaluating a query object over `let(T, None)` AGAIN reads the registry anew —
+`evaluate()` first lets the variable drop the domain of the earlier evaluation (the instances it alone kept alive die), then
+sweeps, then walks the registry. In the model's own operations that is `dropq k; mkq k T none; evalq k` (release the
+variable's cache and collect; a variable without cache; evaluate), so no definition of `Model/SymbolGraph.lean` changes and
+every theorem — all of them quantify over every history — covers the expanded history. With `cachedDomain` on (the code
+before the repair) and for explicit domains the operation is the model's `evalq` itself. -/
+def reevalOps (h : Heap) (q : Quirks) (op : Op) : List Op :=
+  match op with
+  | .evalq k =>
+    match h.qvars.find? (fun v => v.key == k) with
+    | some v =>
+      if !q.cachedDomain && !v.explicit && v.cache.isSome && v.held then [.dropq k, .mkq k v.cls none, .evalq k]
+      else [op]
+    | none => [op]
+  | _ => [op]
+
+def stepS (S : Schema) (q : Quirks) (st : DSt) (op : Op) : DSt :=
+  (reevalOps st.h q op).foldl (fun st op => step q S lifo st (fill st.h op)) st
 def runFromS (S : Schema) (q : Quirks) (st : DSt) (ops : List Op) : DSt := ops.foldl (stepS S q) st
 def runS (S : Schema) (q : Quirks) (ops : List Op) : DSt := runFromS S q (St.init lifo) ops
 
-def specStepS (S : Schema) (q : Quirks) (s : Spec) (op : Op) : Spec := specStep q S s (fill s.h op)
+def specStepS (S : Schema) (q : Quirks) (s : Spec) (op : Op) : Spec :=
+  (reevalOps s.h q op).foldl (fun s op => specStep q S s (fill s.h op)) s
 def specRunS (S : Schema) (q : Quirks) (ops : List Op) : Spec := ops.foldl (specStepS S q) Spec.init
 
 def stepD (q : Quirks) (st : DSt) (op : Op) : DSt := stepS schema q st op
